@@ -1,9 +1,13 @@
 #!/bin/bash
+# Run every quick check on the unchanged tree for several seeds; print only what is not clean.
+# usage: tools/sweep_seeds.sh [seed ...]   (default 1 2 3 4 5); output dirs are scratch (not /verif/evidence)
 cd /verif
-for sd in 1 2 3 4 5; do
+seeds="${@:-1 2 3 4 5}"
+for sd in $seeds; do
   for c in C01 C02 C03 C04 C05 C06 C07 C12 C14 C18 C20; do
     VERIF_SEED=$sd VERIF_OUT=/tmp/sweep-out /venv/bin/python check.py $c > /tmp/sweep-o.txt 2>&1; rc=$?
     if [ $rc -ne 0 ]; then echo "seed $sd $c rc=$rc"; grep -E "violation|HARNESS" /tmp/sweep-o.txt | head -3 | cut -c1-300; fi
   done
   echo "seed $sd done $(date +%H:%M)"
 done
+rm -rf /tmp/sweep-out
